@@ -436,6 +436,13 @@ func (t *ValueSet) result(r Result) Result {
 	// any pointers. We know this to be true already since we analyzed the
 	// function earlier.
 	if !t.lifted() {
+		// Copy the output slice since we're going to modify it. The result
+		// we are given may be the memoized result of a FuncOnce function
+		// which shares its slice with every later use.
+		out := make([]reflect.Value, len(r.out))
+		copy(out, r.out)
+		r.out = out
+
 		for i := uint8(0); i < t.structPointers; i++ {
 			r.out[0] = r.out[0].Elem()
 		}
